@@ -27,6 +27,29 @@ def _modules(case):
     from pytorch_wavelets import (DWT1DForward, DWT1DInverse, DWTForward,
                                   DWTInverse)
     msp = case.get('mode_spelling', case['mode'])
+    sib = dwtu.sibling(case['wave']) if (case.get('reused') and not case.get('wave_row')) else None
+    if sib is not None:
+        # both modules had a previous life with a sibling wavelet of the same length
+        fcls, icls = (DWT1DForward, DWT1DInverse) if case['dim'] == 1 else (DWTForward, DWTInverse)
+        with dwtu.default_dtype(dwtu.tdt(case['dtype'])):
+            def warm(m):
+                n = max(case['size']) + 2 * dwtu.flen(case['wave'])
+                x = torch.ones([1, case['C']] + [n] * case['dim'], requires_grad=True)
+                yl, yh = m(x)
+                (yl.sum() + sum(h.sum() for h in yh)).backward()
+                return yl, yh
+            fwd = dwtu.reused_module(lambda: fcls(J=case['J'], wave=c01.wave_arg(case), mode=msp),
+                                     lambda: fcls(J=case['J'], wave=sib, mode=msp), warm)
+
+            def warm_inv(m):
+                f0 = fcls(J=1, wave=sib, mode=msp)
+                n = max(case['size']) + 2 * dwtu.flen(case['wave'])
+                yl, yh = f0(torch.ones([1, case['C']] + [n] * case['dim']))
+                yl.requires_grad_(True)
+                m((yl, yh)).sum().backward()
+            inv = dwtu.reused_module(lambda: icls(wave=c01.wave_arg(case, 'rec'), mode=msp),
+                                     lambda: icls(wave=sib, mode=msp), warm_inv)
+        return fwd, inv
     with dwtu.default_dtype(dwtu.tdt(case['dtype'])):
         if case['dim'] == 1:
             return (DWT1DForward(J=case['J'], wave=c01.wave_arg(case), mode=msp),
@@ -53,6 +76,7 @@ def run_case(case):
             'separate_row_col_wavelets' if case.get('wave_row') else None,
             'J>=2' if J >= 2 else None, 'L>=20' if L >= 20 else None,
             'approx_PR(dmey)' if w == 'dmey' else None,
+            'reused_module' if case.get('reused') and not case.get('wave_row') and dwtu.sibling(w) else None,
             'in_D1_predicate' if (in_d1a or in_d1s) else None)
     r.nontrivial = J >= 2 or any(n % 2 for n in size) or L >= 6
     fwd, inv = _modules(case)
